@@ -358,14 +358,14 @@ func (w *c46Waits) records() []c46WaitRec {
 
 // c46Deadline is what a stub saw of the context it was given.
 type c46Deadline struct {
-	Called        bool   `json:"called"`
-	StartBlock    uint64 `json:"start_block_argument"`
-	HeightAtCall  uint64 `json:"height_at_call"`
-	WaitTarget    uint64 `json:"block_that_cancels_the_context"`
-	EarlyCancel   bool   `json:"cancelled_before_that_block"`
-	CancelledAt   uint64 `json:"context_seen_done_at_height"`
-	ContextEnded  bool   `json:"context_ended"`
-	RegistrationOK bool  `json:"wait_registered"`
+	Called         bool   `json:"called"`
+	StartBlock     uint64 `json:"start_block_argument"`
+	HeightAtCall   uint64 `json:"height_at_call"`
+	WaitTarget     uint64 `json:"block_that_cancels_the_context"`
+	EarlyCancel    bool   `json:"cancelled_before_that_block"`
+	CancelledAt    uint64 `json:"context_seen_done_at_height"`
+	ContextEnded   bool   `json:"context_ended"`
+	RegistrationOK bool   `json:"wait_registered"`
 }
 
 // observe is run inside a stub: the action registered (with `go`) the wait
